@@ -108,6 +108,21 @@ func zooCases(tier string, seed int64) []Case {
 	for k := 0; k < nb; k++ {
 		add(Case{Kind: "bag", Seed: Mix(seed, 70000+k), Count: 24 * 4})
 	}
+	// more classes on one stream than one octet can number (instances of class #255, #256, #257, #271, #272, #511, #512 ...)
+	many := []int{17, 255, 256, 257, 258, 272, 273, 300, 512, 513, 529}
+	if tier == "thorough" {
+		many = nil
+		for n := 240; n <= 530; n++ {
+			many = append(many, n)
+		}
+	}
+	for off := 0; off < len(many); off += 16 {
+		end := off + 16
+		if end > len(many) {
+			end = len(many)
+		}
+		add(Case{Kind: "many", Seed: Mix(seed, 80000+off), Vec: many[off:end]})
+	}
 	return cs
 }
 
@@ -171,6 +186,17 @@ func zooSub(c Case, j int, env *Env, prop string) (val interface{}, feats []stri
 		cfg.MaxLen = 3
 		val, feats = zooValue(e, Mix(c.Seed, n), cfg, 0)
 		return val, append(feats, fmt.Sprintf("len=%d", n)), false
+	case "many":
+		// n+1 classes in one message (the holder and n of its 530 pointer fields, chosen at random):
+		// which Go type gets class number 255, 256, 257, 272, 512 ... varies with the seed
+		n := c.Vec[j]
+		r := rand.New(rand.NewSource(Mix(c.Seed, n)))
+		h := &zoo.ManyHolder{Tail: int32(n)}
+		for i, p := range r.Perm(zoo.ManyCount)[:n] {
+			zoo.SetMany(h, p, int32(i))
+		}
+		feats = []string{"type=ManyHolder", "tag=classes", "many-classes", fmt.Sprintf("classes=%d", n+1)}
+		return h, feats, false
 	case "bag":
 		// j encodes the number of classes (1..24) and a variant
 		k := j%24 + 1
@@ -220,7 +246,7 @@ func zooCount(c Case) int {
 		return 1
 	case "zero":
 		return 2
-	case "len":
+	case "len", "many":
 		return len(c.Vec)
 	}
 	return c.Count
